@@ -14,6 +14,12 @@
 (*   <<"C", code>>    GOAWAY with that error code (connection error)        *)
 (*   <<"ACK">>        SETTINGS acknowledgement                              *)
 (*   <<"RESP", s>>    response (HEADERS [+DATA] with END_STREAM)            *)
+(*   <<"PONG">>       PING acknowledgement (to a PING of the alphabet)      *)
+(* ga: "none" | "graceful" (the client sent GOAWAY: the server answered     *)
+(* GOAWAY(NO_ERROR), serves what is open, discards frames of newer streams) *)
+(* | "error" (everything is discarded; in graceful state a connection error *)
+(* writes no second GOAWAY - goAway() only records the code - and the       *)
+(* connection is closed by the shutdown timer).                             *)
 (* Codes: PE PROTOCOL_ERROR, SC STREAM_CLOSED, RS REFUSED_STREAM,           *)
 (* FC FLOW_CONTROL_ERROR, NO NO_ERROR.                                      *)
 (*                                                                         *)
@@ -41,7 +47,7 @@ IsHcr(s) == ms[s] \in {"hcr", "hcrbig"}
 HcrOf(s) == IF ms[s] = "openbig" THEN "hcrbig" ELSE "hcr"
 State(s) == IF inMap[s] THEN (IF IsOpen(s) THEN "open" ELSE "hcr") ELSE IF s % 2 = 1 /\ s <= maxID THEN "closed" ELSE IF s % 2 = 0 THEN "idle" ELSE "idle"
 
-ConnErr(code) == /\ out' = <<<<"C", code>>>> /\ ga' = "error"
+ConnErr(code) == /\ out' = (IF ga = "graceful" THEN <<>> ELSE <<<<"C", code>>>>) /\ ga' = "error"
 Nop == out' = <<>>
 Ignore == UNCHANGED <<saw, maxID, cur, unacked, ga, hdr, inMap, ms, trailer, handler, started, pendingES>> /\ Nop
 
@@ -51,6 +57,8 @@ CloseS(s) == /\ inMap' = [inMap EXCEPT ![s] = FALSE] /\ ms' = [ms EXCEPT ![s] = 
 FrameOrderOK(type, s) == IF hdr # 0 THEN type = "CONT" /\ s = hdr ELSE type # "CONT"
 
 Dead == ga = "error"
+\* RFC 9113 6.8 / processFrame: after our own GOAWAY frames of streams above the announced last stream id are discarded
+Discard(s) == ga = "graceful" /\ s > maxID
 
 \* first frame must be SETTINGS
 Preface(type) == saw \/ type = "SETTINGS"
@@ -68,6 +76,7 @@ HeadersComplete(s, es, kind) ==
        /\ out' = <<<<"S", s, "PE">>>>
        /\ (IF inMap[s] THEN CloseS(s) ELSE UNCHANGED <<inMap, ms, cur>>)       \* resetStream closes a known stream
        /\ UNCHANGED <<saw, maxID, unacked, ga, trailer, handler, started>>
+  ELSE IF Discard(s) THEN Nop /\ UNCHANGED <<saw, maxID, cur, unacked, ga, inMap, ms, trailer, handler, started>>     \* processFrame: stream initiated after our GOAWAY
   ELSE IF s % 2 = 0 THEN ConnErr("PE") /\ UNCHANGED <<saw, maxID, cur, unacked, inMap, ms, trailer, handler, started>>
   ELSE IF inMap[s] THEN
        IF IsHcr(s) THEN out' = <<<<"S", s, "SC">>>> /\ CloseS(s) /\ UNCHANGED <<saw, maxID, unacked, ga, trailer, handler, started>>
@@ -131,16 +140,34 @@ Priority(s, kind) ==
                                 /\ UNCHANGED <<saw, maxID, unacked, ga, trailer, handler, started>>
   ELSE Nop /\ UNCHANGED <<saw, maxID, cur, unacked, ga, inMap, ms, trailer, handler, started>>
 
+Ping(kind) ==
+  /\ out' = (IF kind = "ack" THEN <<>> ELSE <<<<"PONG">>>>)
+  /\ UNCHANGED <<saw, maxID, cur, unacked, ga, inMap, ms, trailer, handler, started>>
+
+\* processGoAway: whatever the client's code, start the graceful shutdown - GOAWAY(NO_ERROR) once
+ClientGoAway ==
+  /\ IF ga = "none" THEN out' = <<<<"C", "NO">>>> /\ ga' = "graceful" ELSE Nop /\ UNCHANGED ga
+  /\ UNCHANGED <<saw, maxID, cur, unacked, inMap, ms, trailer, handler, started>>
+
+KeepAll == UNCHANGED <<saw, maxID, cur, unacked, hdr, inMap, ms, trailer, handler, started, pendingES>>
+
 Frame(type, s, es, eh, kind) ==
   /\ steps < MaxSteps /\ steps' = steps + 1
   /\ IF Dead THEN Ignore /\ UNCHANGED hdr     \* after an error GOAWAY everything is discarded (the framer still runs; abstracted)
      \* a zero WINDOW_UPDATE increment is rejected by the frame parser, before the HEADERS/CONTINUATION order is looked at
      ELSE IF type = "WU" /\ kind = "zero" THEN WU(s, kind) /\ UNCHANGED <<hdr, pendingES>>
+     \* frame-parser checks of PING and GOAWAY come first as well: size, then stream id
+     ELSE IF type = "PING" /\ kind = "bad" THEN ConnErr("FS") /\ KeepAll
+     ELSE IF type \in {"PING", "GOAWAY"} /\ s # 0 THEN ConnErr("PE") /\ KeepAll
      ELSE IF ~FrameOrderOK(type, s) THEN ConnErr("PE") /\ UNCHANGED <<saw, maxID, cur, unacked, hdr, inMap, ms, trailer, handler, started, pendingES>>
      \* "first frame must be SETTINGS" is checked when a frame reaches processFrame; a header block is delivered as one
      \* frame by its last fragment
      ELSE IF ~Preface(type) /\ ~(type \in {"HEADERS", "CONT"} /\ ~eh) THEN ConnErr("PE") /\ UNCHANGED <<saw, maxID, cur, unacked, hdr, inMap, ms, trailer, handler, started, pendingES>>
+     \* frames of streams above the last stream id of our GOAWAY are discarded (header blocks: when delivered, see HeadersComplete)
+     ELSE IF Discard(s) /\ type \notin {"HEADERS", "CONT"} THEN Ignore
      ELSE CASE type = "SETTINGS" -> Settings(kind) /\ UNCHANGED <<hdr, pendingES>>
+            [] type = "PING"     -> Ping(kind) /\ UNCHANGED <<hdr, pendingES>>
+            [] type = "GOAWAY"   -> ClientGoAway /\ UNCHANGED <<hdr, pendingES>>
             [] type = "HEADERS"  -> Headers(s, es, eh, kind)
             [] type = "CONT"     -> Cont(s, eh, kind)
             [] type = "DATA"     -> (IF s = 0 THEN ConnErr("PE") /\ UNCHANGED <<saw, maxID, cur, unacked, inMap, ms, trailer, handler, started>> ELSE Data(s, es)) /\ UNCHANGED <<hdr, pendingES>>
@@ -169,9 +196,11 @@ InAlphabet(type, s, es, eh, kind) ==
               /\ (type \in {"RST", "PUSH", "UNKNOWN"} => kind = "ok" /\ eh = FALSE /\ es = FALSE)
               /\ (type = "WU" => kind \in {"ok", "zero", "overflow"} /\ eh = FALSE /\ es = FALSE)
               /\ (type = "PRIORITY" => kind \in {"ok", "selfdep"} /\ eh = FALSE /\ es = FALSE)
+              /\ (type = "PING" => kind \in {"ok", "ack", "bad"} /\ eh = FALSE /\ es = FALSE)
+              /\ (type = "GOAWAY" => kind = "ok" /\ eh = FALSE /\ es = FALSE)
 ClientFrame(type, s, es, eh, kind) == InAlphabet(type, s, es, eh, kind) /\ Frame(type, s, es, eh, kind)
 
-Next == \/ \E type \in {"SETTINGS", "HEADERS", "CONT", "DATA", "RST", "WU", "PRIORITY", "PUSH", "UNKNOWN"},
+Next == \/ \E type \in {"SETTINGS", "HEADERS", "CONT", "DATA", "RST", "WU", "PRIORITY", "PUSH", "UNKNOWN", "PING", "GOAWAY"},
               s \in Ids \cup {0}, es \in BOOLEAN, eh \in BOOLEAN, kind \in {"ok", "ack", "bad", "malformed", "selfdep", "clbig", "zero", "overflow"} :
               ClientFrame(type, s, es, eh, kind)
         \/ \E s \in Ids : HandlerFinish(s)
@@ -186,4 +215,6 @@ StartOnlyNewIncreasing == [][\A s \in started' \ started : s > maxID /\ cur < Ad
 \* a GOAWAY covers every request the server acted on: the last-stream-id it carries is maxID (raised to the offending
 \* frame's stream first), and every started stream is <= maxID
 GoAwayCovers == \A s \in started : s <= maxID
+\* after the graceful GOAWAY no new request is started either
+NoStartAfterGoAway == [][ga # "none" => started' = started]_vars
 =============================================================================
